@@ -47,6 +47,7 @@ import (
 	"hash/fnv"
 	"math/big"
 	"os"
+	"runtime"
 	"sort"
 	"strconv"
 	"strings"
@@ -123,13 +124,47 @@ func (c *collector) flush(r *ev.Run) {
 // ---------------------------------------------------------------------------------------------
 // calling the implementation
 
-func parse(name, s string) (v semantic.Version, err error, p any, stack string) {
-	p, stack = ev.Recover(func() { v, err = semantic.Parse(s, name) })
+// safe runs fn, containing a panic. Instead of formatting a stack trace for each of possibly
+// millions of panics it collects program counters and resolves (cached) the first frame inside the
+// repository, which is the stable "site" used in cause keys (same notion as ev.PanicSite).
+var siteCache sync.Map // [32]uintptr -> string
+
+func safe(fn func()) (p any, site string) {
+	defer func() {
+		if x := recover(); x != nil {
+			p = x
+			var pcs [32]uintptr
+			n := runtime.Callers(2, pcs[:])
+			if s, ok := siteCache.Load(pcs); ok {
+				site = s.(string)
+				return
+			}
+			site = "unknown-site"
+			frames := runtime.CallersFrames(pcs[:n])
+			for {
+				f, more := frames.Next()
+				if strings.HasPrefix(f.Function, "github.com/google/osv-scalibr/") && !strings.Contains(f.Function, "verif") {
+					site = strings.TrimPrefix(f.Function, "github.com/google/osv-scalibr/")
+					break
+				}
+				if !more {
+					break
+				}
+			}
+			siteCache.Store(pcs, site)
+		}
+	}()
+	fn()
+	return nil, ""
+}
+
+func parse(name, s string) (v semantic.Version, err error, p any, site string) {
+	p, site = safe(func() { v, err = semantic.Parse(s, name) })
 	return
 }
 
-func compare(v semantic.Version, s string) (c int, err error, p any, stack string) {
-	p, stack = ev.Recover(func() { c, err = v.CompareStr(s) })
+func compare(v semantic.Version, s string) (c int, err error, p any, site string) {
+	p, site = safe(func() { c, err = v.CompareStr(s) })
 	return
 }
 
@@ -143,7 +178,7 @@ func cranHasNonNumeric(s string) bool {
 }
 
 // panicKey groups panics by root cause: the panic site, except for the one class that has a name.
-func panicKey(g *group, p any, stack string, strs ...string) string {
+func panicKey(g *group, p any, site string, strs ...string) string {
 	if g.id == "CRAN" && strings.Contains(fmt.Sprint(p), "nil pointer dereference") {
 		for _, s := range strs {
 			if cranHasNonNumeric(s) {
@@ -151,7 +186,7 @@ func panicKey(g *group, p any, stack string, strs ...string) string {
 			}
 		}
 	}
-	return g.id + ":panic:" + ev.PanicSite(stack)
+	return g.id + ":panic:" + site
 }
 
 type ctx struct {
